@@ -18,6 +18,7 @@ RULE = (
     "buffering is allowed and the destination is known and sleeping; at that node's next wake the multiset of writes equals the latest parked "
     "message per (child,type) of that node only; nothing is written twice. Parked state is observed through writes only. Non-trivial = a key "
     "overwritten before the wake, a wake while another node has parked commands, or re-parking after a flush; distinct = distinct case JSON."
+    ' Round 6: non-set application sends (req for the same child/type, internal commands), read errors, clock ticks.'
 )
 ASSUMPTIONS = [
     "only set commands are sent (other commands: C12); value requests from nodes are part of the traffic (their reply is a set line too)",
